@@ -717,6 +717,34 @@ def dictionary_validity_history_independent(prog, res):
     res.need(R, 2)
 
 
+def row_hash_is_salted(prog, res):
+    """T9: the row-based match finder files positions under a SALTED hash (the salt changes with the context's history so that
+    stale tags cannot match); every hash it computes for its own table must be salted, or positions inserted through one call
+    site are looked up under another mapping and the result depends on the salt, i.e. on what the context compressed before.
+    Functions that touch the tag table may only hash through ZSTD_hashPtrSalted (dictionary-side tables of other layouts excepted:
+    the argument is then the dictionary match state's / dedicated search's hashLog)."""
+    R = "T9.row-hash-salted"
+    n = 0
+    for f in prog.fns_in("compress/zstd_lazy.c"):
+        if not any(y.get("k") == "mem" and y.get("f") in ("tagTable", "hashSalt") for _, _, r in f.roots() for y in walk(r)):
+            continue
+        salted = [c for b, i, c in f.calls("ZSTD_hashPtrSalted")]
+        if not salted and not f.calls("ZSTD_hashPtr"):
+            continue
+        n += 1
+        plain = []
+        for b, i, c in f.calls("ZSTD_hashPtr"):
+            a1 = f.anchors(c["a"][1], depth=3)
+            if any(x in a1 for x in ("f:dictMatchState",)) or any("dds" in (y.get("n") or "").lower() or "dms" in (y.get("n") or "").lower() for y in f.walk_deep(c["a"][1])):
+                continue
+            plain.append(c.get("l"))
+        res.check(not plain, R, f.name, f.loc, "%d salted hash computation(s), no unsalted one for the row table" % len(salted),
+                  "%s computes an unsalted ZSTD_hashPtr (line %s) next to its salted ones: positions handled through that call site live under another "
+                  "row/tag mapping, and which entries they displace depends on the salt, i.e. on the context's history and on the worker that ran the job" % (f.name, plain))
+    res.check(n >= 3, R, "sites", "lib/compress/zstd_lazy.c", "%d row-finder functions hash with the salt" % n, "row-finder functions using the salted hash: %d" % n)
+    res.need(R, 4)
+
+
 def run(tier):
     res = Result("C07", tier)
     tus, info = extract(["compress", "common", "decompress", "dictBuilder"])
@@ -738,6 +766,7 @@ def run(tier):
     mt_boundaries(prog, res)
     from .C15 import cycle_log_callers        # shared clause: what overflow correction does depends only on the parameters' chainLog
     cycle_log_callers(prog, res)
+    row_hash_is_salted(prog, res)
     dictionary_validity_history_independent(prog, res)
     # a session reset drops what describes the caller's buffers of the abandoned session (re-submitted by flushStream/endStream)
     rs = prog.fn("ZSTD_CCtx_reset")
